@@ -282,6 +282,8 @@ def _index_of_lemmas(e, n):
         l0, k = l.arg(0), l.arg(1)
         out.append(z3.Implies(lookup(l0, key) != V.Missing, e == index_of(l0, key)))
         out.append(z3.Implies(z3.And(index_of(l0, k) == length(l0), key == k), e == length(l0)))      # structurally absent key: appended
+        out.append(z3.Implies(z3.And(key != k, index_of(l0, key) == length(l0)), e == length(l)))         # another key's store keeps an absent key absent
+        out.append(length(l) == z3.If(index_of(l0, k) == length(l0), length(l0) + 1, length(l0)))          # a store appends exactly when the key is absent
     return out
 
 
